@@ -282,4 +282,27 @@ Verdicts(cfg, obs) ==
    JoinPerInput |-> JoinPerInput(cfg, obs), JoinNothingInvented |-> JoinNothingInvented(cfg, obs), JoinComplete |-> JoinComplete(cfg, obs),
    ThrottleWindow |-> ThrottleWindow(cfg, obs), ThrottlePaced |-> ThrottlePaced(cfg, obs)]
 Failing(cfg, obs) == LET v == Verdicts(cfg, obs) IN {p \in DOMAIN v : ~v[p]}
+
+\* vacuity guard: the conditional predicates whose antecedent holds in this observation (PipeTraceP accumulates them per
+\* execution; the orchestrator reports, per check, in how many executions each predicate was really put to the test)
+Exercised(cfg, obs) ==
+  LET a == [Complete |-> OneIn(cfg) /\ ~Unspecified(cfg) /\ ~obs.cancelled /\ AllInClosed(obs) /\ AllSeen(obs),
+            Settle1 |-> cfg.kind # "Pipeline" /\ obs.quiet /\ NIn(obs) > 0 /\ AllInClosed(obs) /\ obs.pending = 0 /\ Drained(obs) /\ obs.now >= obs.lastEnvAt + Grace(cfg, obs),
+            Settle2 |-> obs.quiet /\ obs.cancelled /\ AllInClosed(obs) /\ obs.pending = 0 /\ obs.now >= obs.lastEnvAt + Grace(cfg, obs),
+            LiftCloses |-> cfg.kind \in {"Map", "FMap", "Emit", "Unfold"} /\ cfg.mode = "lift" /\ ~Parallel(cfg) /\ obs.quiet /\ obs.pending = 0
+                            /\ \E j \in 1..Len(obs.calls) : obs.calls[j].x \in cfg.fail,
+            TakeBound |-> cfg.kind = "Take" /\ obs.sent[1] # <<>>,
+            FoldRes |-> cfg.kind = "Fold" /\ obs.got["res"] # <<>>,
+            NeverBlocksSender |-> cfg.kind = "New" /\ obs.quiet /\ ~obs.cancelled /\ ~obs.closed[1] /\ obs.sent[1] # <<>>,
+            LosslessAfterCancel |-> cfg.kind = "New" /\ obs.cancelled /\ obs.seen["out"] /\ obs.sentAtCancel[1] # <<>>,
+            GenStops |-> cfg.kind \in {"Emit", "Unfold"} /\ obs.cancelled /\ \E o \in obs.outs : Len(obs.got[o]) > obs.gotAtCancel[o],
+            EmitPaced |-> cfg.kind = "Emit" /\ Len(obs.calls) >= 2,
+            EmitKeepUp |-> cfg.kind = "Emit" /\ ~cfg.gate /\ cfg.fail = {} /\ \E j \in 1..Len(obs.got["out"]) :
+                              j >= 2 /\ (\A i \in 1..j : obs.recvAt["out"][i] <= (i - 1) * cfg.freq) /\ (~obs.cancelled \/ j <= obs.gotAtCancel["out"]),
+            JoinComplete |-> cfg.kind = "Join" /\ obs.seen["out"] /\ ~obs.cancelled /\ NIn(obs) > 0,
+            ThrottleWindow |-> cfg.kind = "Throttling" /\ Len(obs.got["out"]) > Bound(cfg),
+            ThrottlePaced |-> cfg.kind = "Throttling" /\ \E j \in 1..Len(obs.got["out"]) : j > cfg.ops /\ Saturated(cfg, obs, j),
+            PipeComplete |-> PipeFed(cfg) /\ ~obs.cancelled /\ AllInClosed(obs) /\ obs.seen["out"],
+            PipeGen |-> cfg.kind = "Pipeline" /\ ~PipeFed(cfg) /\ obs.seen["out"] /\ ~obs.cancelled]
+  IN {p \in DOMAIN a : a[p]}
 ====
